@@ -84,7 +84,7 @@ pub mod verif_hooks {
         external_links_task, LinksTaskConfig, LinksTaskState, NoReport, PendingWrites, ReportFailed,
     };
     pub use super::links::{Links, TriggerUnlink};
-    pub use super::receiver::LaneData;
+    pub use super::receiver::{ItemResponse, LaneData, ResponseData, ResponseReceiver};
     pub use super::remotes::{RemoteSender, UplinkResponse};
     pub use super::write_fut::{WriteResult, WriteTask};
     pub use super::{CommandChannelRequest, ExternalLinkRequest};
